@@ -640,7 +640,8 @@ func reifySliceMerge(
 	}
 	tmp := reflect.MakeSlice(tTo, l, l)
 
-	if withOld {
+	if withOld && arrMergeCfg != cfgReplaceValue {
+		// when replacing, the new elements must not be merged with the old ones
 		reflect.Copy(tmp.Slice(cpyStart, tmp.Len()), old)
 	}
 	return reifyDoArray(opts, tmp, tTo.Elem(), start, val, arr)
